@@ -262,6 +262,24 @@ func (pr *progRender) fnExpr(sp string, unit int, sigStr string, body []string, 
 	case "funcvar":
 		pr.pre = append(pr.pre, "fv_"+name+" := "+lit(false))
 		return "fv_" + name
+	case "pkgvar":
+		// a package-level variable of function type (a "hook"). When nothing
+		// else executes this program at the same time (env.Solo) the last
+		// argument expression of a bare directive sets it to nil, and it is
+		// restored when the enclosing function returns: a generator that
+		// reads the variable when the task runs instead of once, in source
+		// order, calls nil.
+		d := "var pv_" + name + " = " + plainSig + " {\n\tenv := rt.FromCtx(ctx)\n"
+		for _, l := range body {
+			d += "\t" + l + "\n"
+		}
+		d += "}\n"
+		pr.decls = append(pr.decls, d)
+		if !pr.s.Wrap && pr.s.Bare {
+			pr.pre = append(pr.pre, "defer func(sv "+plainSig+") {\n\t\tif env.Solo {\n\t\t\tpv_"+name+" = sv\n\t\t}\n\t}(pv_"+name+")")
+			pr.poison = append(pr.poison, "if env.Solo { pv_"+name+" = nil }")
+		}
+		return "pv_" + name
 	case "callret":
 		d := "func mk_" + name + "(env *rt.Env) " + plainSig + " {\n\treturn " + strings.ReplaceAll(strings.ReplaceAll(lit(false), pr.n.ctx+".Context", "context.Context"), "\n\t\t", "\n") + "\n}\n"
 		pr.decls = append(pr.decls, d)
